@@ -233,6 +233,10 @@ def run_code_with_cache(
     """
     use_cache = should_use_cache(execer, mode)
     filename = code_cache_name(code)
+    if mode != "exec":
+        # the same text compiles to different bytecode in "single" (prints
+        # expression values) and "eval" mode: do not share the entry
+        filename += "-" + mode
     cachefname = get_cache_filename(filename, code=True)
     run_cached = False
     if use_cache:
